@@ -39,7 +39,7 @@ pub fn prop() -> Prop {
         stub: &["transport", "store", "glue", "random source (recording)"],
         independent: &["Python reference implementation of RFC 9591 / BIP-340 / BIP-341 (ref/frost_ref.py, curves.py, hashes.py, bip340_ref.py)"],
         ref_sample: |_| 0,
-        required_probes: &["session_recorded", "signers_ge_4", "signers_ge_9", "signers_ge_33", "preprocess_batch", "ids_derived", "ids_scalar", "ids_u16ext", "msg_empty", "msg_multiblock", "keys_dkg", "taproot_tweak", "single_sig_lib_made", "single_sig_ref_made", "ident_swept"],
+        required_probes: &["session_recorded", "signers_ge_4", "signers_ge_9", "signers_ge_33", "preprocess_batch", "injected_nonce_session", "injected_adjacent_same_binding", "injected_all_same", "ids_derived", "ids_scalar", "ids_u16ext", "msg_empty", "msg_multiblock", "keys_dkg", "taproot_tweak", "single_sig_lib_made", "single_sig_ref_made", "ident_swept"],
         prepare: Some(prepare),
     }
 }
@@ -242,7 +242,8 @@ fn exec_c<C: Suite>(scen: &Scenario) -> Exec {
     {
         let from = scen.extra["ident_from"].as_u64().unwrap_or(1);
         let count = scen.extra["ident_count"].as_u64().unwrap_or(1);
-        let mut vals: Vec<u16> = (0..count).map(|k| (((from - 1 + k) % 65535) + 1) as u16).collect();
+        // a stride co-prime to 65535 spreads each batch over the whole range (all bit positions of the u16 are exercised early)
+        let mut vals: Vec<u16> = (0..count).map(|k| ((((from - 1 + k) * 10007) % 65535) + 1) as u16).collect();
         if scen.run < 12 {
             vals.extend([1u16, 2, 255, 256, 257, 32767, 32768, 65534, 65535]);
         }
@@ -253,6 +254,96 @@ fn exec_c<C: Suite>(scen: &Scenario) -> Exec {
             }
             rep.evaluations += 1;
             rep.probe("ident_swept");
+        }
+    }
+    // ---- a session on INJECTED nonces with structure that random draws never have: the same pair at every signer, the same binding
+    // (or hiding) nonce at two signers adjacent in identifier order, hiding = binding, the scalars 1 and 2, q-1 ---------------
+    if let Some(pk) = sim.hub.as_ref().and_then(|h| h.pk.clone()) {
+        let kps = current_kps(&sim);
+        let mut g = stream(scen.seed, scen.run, "c02/injected");
+        let n = scen.n as usize;
+        let k = g.range(scen.t as u64, n.min(scen.t as usize + 3) as u64) as usize;
+        let mut members: Vec<frost::keys::KeyPackage<C>> = g.subset(n, k).into_iter().filter_map(|i| kps.get(&i).cloned()).collect();
+        members.sort_by_key(|kp| *kp.identifier());
+        if members.len() == k && k >= 2 {
+            let plan = *g.pick(&["all_same", "adjacent_same_binding", "adjacent_same_hiding", "hiding_eq_binding", "one_and_two", "minus_one", "adjacent_swapped"]);
+            let base_h = sc_random_nonzero::<C>(&mut g);
+            let base_b = sc_random_nonzero::<C>(&mut g);
+            let j0 = g.below(k as u64 - 1) as usize;
+            let mut pairs: Vec<(frost::Scalar<C>, frost::Scalar<C>)> = (0..k).map(|_| (sc_random_nonzero::<C>(&mut g), sc_random_nonzero::<C>(&mut g))).collect();
+            match plan {
+                "all_same" => pairs.iter_mut().for_each(|p| *p = (base_h, base_b)),
+                "adjacent_same_binding" => {
+                    pairs[j0].1 = base_b;
+                    pairs[j0 + 1].1 = base_b;
+                }
+                "adjacent_same_hiding" => {
+                    pairs[j0].0 = base_h;
+                    pairs[j0 + 1].0 = base_h;
+                }
+                "hiding_eq_binding" => pairs.iter_mut().for_each(|p| p.1 = p.0),
+                "one_and_two" => pairs.iter_mut().for_each(|p| *p = (one::<C>(), sc_from_u64::<C>(2))),
+                "minus_one" => pairs.iter_mut().for_each(|p| *p = (neg::<C>(one::<C>()), neg::<C>(one::<C>()))),
+                _ => {
+                    // signer j0+1 uses signer j0's pair swapped
+                    pairs[j0 + 1] = (pairs[j0].1, pairs[j0].0);
+                }
+            }
+            let msg = gen_message(&mut g);
+            let mut nonces = Vec::new();
+            let mut cm = BTreeMap::new();
+            let mut okk = true;
+            for (kp, (h, b)) in members.iter().zip(pairs.iter()) {
+                match (frost::round1::Nonce::<C>::deserialize(&sc_bytes::<C>(h)), frost::round1::Nonce::<C>::deserialize(&sc_bytes::<C>(b))) {
+                    (Ok(hn), Ok(bn)) => {
+                        let nn = frost::round1::SigningNonces::<C>::from_nonces(hn, bn);
+                        cm.insert(*kp.identifier(), *nn.commitments());
+                        nonces.push(nn);
+                    }
+                    _ => okk = false,
+                }
+            }
+            if okk {
+                let pkg = frost::SigningPackage::<C>::new(cm, &msg);
+                let mut shares = BTreeMap::new();
+                for (kp, nn) in members.iter().zip(nonces.iter()) {
+                    match frost::round2::sign::<C>(&pkg, nn, kp) {
+                        Ok(z) => {
+                            shares.insert(*kp.identifier(), z);
+                        }
+                        Err(e) => return Exec::Violation(Violation::new("C02", "C02.structured_nonce_session_failed", format!("plan {plan}: sign = {e:?}")), rep),
+                    }
+                }
+                let sig = match frost::aggregate::<C>(&pkg, &shares, &pk) {
+                    Ok(s) => s,
+                    Err(e) => return Exec::Violation(Violation::new("C02", "C02.structured_nonce_session_failed", format!("plan {plan} ({k} signers, equal nonces at sorted positions {j0},{}): honest shares do not aggregate: {e:?}", j0 + 1)), rep),
+                };
+                let signers: Vec<Value> = members
+                    .iter()
+                    .zip(nonces.iter())
+                    .map(|(kp, nn)| {
+                        json!({
+                            "id": hexs(&kp.identifier().serialize()),
+                            "share": hexs(&kp.signing_share().serialize()),
+                            "verifying_share": hexs(&pk.verifying_shares().get(kp.identifier()).and_then(|v| v.serialize().ok()).unwrap_or_default()),
+                            "hiding_nonce": hexs(&nn.hiding().serialize()),
+                            "binding_nonce": hexs(&nn.binding().serialize()),
+                            "hiding_commitment": hexs(&nn.commitments().hiding().serialize().unwrap_or_default()),
+                            "binding_commitment": hexs(&nn.commitments().binding().serialize().unwrap_or_default()),
+                            "sig_share": hexs(&shares[kp.identifier()].serialize()),
+                        })
+                    })
+                    .collect();
+                rep.trace.push(
+                    json!({"type": "session", "suite": C::NAME, "run": run_tag, "what": format!("injected nonces, plan {plan}"),
+                        "group_key": hexs(&pk.verifying_key().serialize().unwrap_or_default()), "message": hexs(&msg), "signers": signers,
+                        "signature": hexs(&sig.serialize().unwrap_or_default()), "tweak": Value::Null})
+                    .to_string(),
+                );
+                rep.evaluations += 2 + 5 * k as u64;
+                rep.probe("injected_nonce_session");
+                rep.probe(&format!("injected_{plan}"));
+            }
         }
     }
     // ---- nonces from the batch entry point (round1::preprocess): every pair, not only the first, is nonce_generate ------------
